@@ -19,14 +19,13 @@ Vector quantities on faces / cells are flattened face-wise ("F" order): index d 
 """
 from __future__ import annotations
 
-import math
 
 import numpy as np
 from hypothesis import strategies as st
 
 from .grids import grid_spec
 
-_f = lambda lo, hi: st.floats(lo, hi, allow_nan=False, allow_infinity=False, width=64)  # noqa: E731
+_f = lambda lo, hi: st.floats(lo, hi, allow_nan=False, allow_infinity=False, allow_subnormal=False, width=64)  # noqa: E731
 
 KW = "mechanics"
 PATTERN_LEN = 24
@@ -34,11 +33,11 @@ PATTERN_LEN = 24
 
 # --------------------------------------------------------------------------- strategies
 @st.composite
-def mech_grid_spec(draw, tier="quick", poly=False, max_amp=0.15, max_n=4, max_n3=2, dims=(2, 3)):
+def mech_grid_spec(draw, poly=False, max_amp=0.15, max_n=4, max_n3=2, dims=(2, 3), gmsh=False):
     """2-d grids in the xy-plane (no rigid motion); 3-d grids optionally rotated / affinely mapped."""
     dim = draw(st.sampled_from(list(dims)))
     s = draw(grid_spec(dims=(dim,), poly=poly, max_amp=max_amp, max_n=max_n, max_n3=max_n3, rigid=(dim == 3),
-                       affine=True, gmsh=False))
+                       affine=True, gmsh=gmsh))
     return s
 
 
